@@ -996,7 +996,10 @@ async fn rtp_read(
     // reliable byte stream) every tail packet must arrive.
     if path_tcp && obs.tail_seen < TAIL {
         let missing: Vec<usize> = seen.iter().enumerate().skip(BURST as usize).filter(|(_, s)| !**s).map(|(i, _)| i).collect();
-        return Err(Fail::stall(
+        // Bunched arrival (large data-channel messages share the TCP stream) can still overrun the receiver's
+        // 64-slot queue when many points run at once, so this counts only if it repeats when the point runs
+        // alone (Fail::timing, three solo re-runs) - not under the ">= 3 stalled cases in one run" rule.
+        return Err(Fail::timing(
             format!("rtp-tail-lost-on-tcp:{kind}"),
             format!("{kind} RTP {dir}: the selected pair is TCP, yet only {} of the {TAIL} paced packets after the burst arrived (missing {:?}; {} of {RTP_TOTAL} overall)", obs.tail_seen, missing, obs.distinct),
         ));
